@@ -105,7 +105,7 @@ EXTRA = {
     "C11": "Left-recursive grammars with failing blocks (three symbolic invocations per block); AddErr lemma also from a list in which the same error was recorded and rolled back. AddErr lemma draws the inner error among a plain error, an errList value and a wrapped errList (errors.As is an engine intrinsic).",
     "C13": "Harness_C13main: the real main() (package flag interpreted; input, output and imports.Process stubbed; exit mocked) on 6 grammars x 8 concrete (-optimize-grammar, -support-left-recursion, -x) triples with the other flags, the alternate entry points and one appended byte symbolic; oracle = stage results of the replayed pipeline; natively replayed on real files with the real goimports. The static-code template expansion is executed (native regexp/text/template intrinsics) in the main() harness. Known finding F19 (-no-recover exposes a panic of the front end's own action on an unterminated code block). The grammar arrives on a virtual standard input (input(), bufio, io.ReadAll interpreted); Harness_C13maintext: whole text of <= 2 / 3 symbolic bytes through the real main().",
     "C14": "Lemma RecoveryNested (a throw inside the running recovery expression is handled by the handler that is still in force); grammars tr_resume, tr_resume2.",
-    "C15": "Seeded grammars with 2-4 classes each that share Unicode class names, characters and ranges and differ in ^ and i (24 / 300). Kernel Harness_C15kernel: every Unicode class name the front end accepts (200) x i, BasicLatinLookup against package unicode on a symbolic rune below 128.",
+    "C15": "Seeded grammars with 2-4 classes each that share Unicode class names, characters and ranges and differ in ^ and i (24 / 100); thorough: 150 random classes and 80 class merges (the first thorough run of this session did not finish the larger sample within an hour). Kernel Harness_C15kernel: every Unicode class name the front end accepts (200) x i, BasicLatinLookup against package unicode on a symbolic rune below 128.",
     "C16": "Second harness: the Stats collector handed to Statistics already counts 0..40 expressions (symbolic), budget 1..16, option order symbolic.",
     "C18": "Option values are built once and handed to every call; fourth family: the three calls through ParseReader, the first value compared with a deep copy taken when it was returned. Fifth family C18opts: the middle call sets every runtime option to its non-default value, the third call (default options) must equal the first. c_longclass (a class listing 11 characters) under the ownership monitor.",
     "C19": "The static-code template expansion is executed in the engine (native regexp/text/template intrinsics), so the compared output is the complete file before goimports. Harness_C19seq: X built after Y in one process equals X built in a fresh process (symFreshProcess; two native processes confirm). opt_diamond (diamond of rule references) among the grammars.",
